@@ -57,6 +57,8 @@ def plan(tier, seed):
     out.append({'arrival': 'idle', 'how': 'TERM', 'replace': True, 'seed': seed, 'idx': len(out)})
     out.append({'arrival': 'early-startup', 'how': 'TERM', 'seed': seed, 'idx': len(out)})
     out.append({'arrival': 'early-startup', 'how': 'INT', 'seed': seed, 'idx': len(out)})
+    out.append({'arrival': 'early-startup', 'how': 'TERM', 'early_delay': 0.02, 'seed': seed, 'idx': len(out)})
+    out.append({'arrival': 'early-startup', 'how': 'QUIT', 'early_delay': 0.05, 'seed': seed, 'idx': len(out)})
     n = 0 if tier == 'quick' else 140
     for i in range(n):
         out.append({'random': True, 'seed': seed, 'idx': 100 + i})
@@ -149,6 +151,7 @@ def run_case(spec):
 def _case(d, conf, spec, pidfile, res):
     arrival, how, pre = spec['arrival'], spec['how'], spec.get('prepid')
     label = '%s/%s' % (arrival, how)
+    sent_early = False
     pre_content = None
     if pre:
         if pre == 'live':
@@ -199,6 +202,9 @@ def _case(d, conf, spec, pidfile, res):
             res.inconclusive.append('pid file never appeared: %s' % d.output()[-300:])
             return
         time.sleep(spec.get('early_delay', 0.0))
+        # at once: anything done in between (scanning /proc, ...) would let the start-up run on
+        os.kill(d.pid, getattr(signal, 'SIG' + how))
+        sent_early = True
     elif arrival == 'startup':
         if not d.wait_bound(15):
             res.inconclusive.append('daemon did not bind its endpoint: %s' % d.output()[-300:])
@@ -284,7 +290,7 @@ def _case(d, conf, spec, pidfile, res):
         if not accepted:
             res.obs['quit_refused:%s' % (inflight or 'idle')] += 1
             res.hist['quit_refusal_reason'][str(r.get('reason'))[:60]] += 1
-    else:
+    elif not sent_early:
         os.kill(d.pid, getattr(signal, 'SIG' + how))
     res.obs['shutdowns:%s' % label] += 1
     if not accepted:
